@@ -22,7 +22,7 @@ from ..pool import pmap
 META = {
     "level": "model_checking",
     "text": "TLC checks the line-number arithmetic model (rows of a parse unit, the unit's base line, directive body offset from the directive splitter, colon containers, included files with their own source) against the physical line of every frame and leaf for every layout within the bound; every layout is concretised with unique markers and replayed through the docutils front end, comparing .line/.source of every wrapper node, leaf node and warning; random deeper layouts are validated as traces by TLC.",
-    "note": "Bound: paths <= 2 frames over 58 frame shapes (6 wrappers x option style x option count x blank lines x preceding siblings) x 6 leaf kinds x 2 preambles, and paths of 3 frames over a 12-shape subset. docutils front end (the Sphinx front end shares the renderer; its warning locations are printed by Sphinx). Three as-built deviations are open findings (lines inside an included file, a ::: directive whose body starts with a ::: fence, body text on the fence line).",
+    "note": "Bound: paths <= 2 frames over 58 frame shapes (6 wrappers x option style x option count x blank lines x preceding siblings) x 6 leaf kinds x 2 preambles, and paths of 3 frames over a 12-shape subset. docutils front end (the Sphinx front end shares the renderer; its warning locations are printed by Sphinx). Two as-built deviations are open findings (lines inside an included file, body text on the fence line); a third (a ::: directive whose body starts with a ::: fence) was repaired.",
     "technique": "TLA+ spec + TLC exhaustive check; spec-behaviour replay into the code; TLC batch trace validation",
     "specs": ["Lines", "LinesTrace"],
 }
@@ -249,9 +249,6 @@ def run(ctx):
             for n, f in enumerate(path):
                 if f["first"] and n != len(path) - 1:
                     ok = False
-                if n + 1 < len(path) and f["w"] in ("btick", "colon") and f["blanks"] == 0 and f["skip"] == 0 and path[n + 1]["w"] in ("colon", "div") \
-                        and not ((f["w"] == "colon" and f["opt"] == "none") or f["opt"] == "yaml"):
-                    ok = False
             if ok:
                 break
         leaf = "para" if path[-1]["first"] else rnd.choice(LEAVES)
@@ -295,7 +292,7 @@ def _validate(ctx, traces, consts, name, label):
     return rv.records
 
 
-FINDING_OF = {"DevIncludePlusOne": "C04-include-plus-one", "DevColonNested": "C04-colon-nested-first", "DevFirstLine": "C04-first-line-body"}
+FINDING_OF = {"DevIncludePlusOne": "C04-include-plus-one", "DevFirstLine": "C04-first-line-body"}
 
 
 def _applicable(path):
@@ -306,9 +303,6 @@ def _applicable(path):
             devs.add("DevIncludePlusOne")
         if f["first"]:
             devs.add("DevFirstLine")
-        if f["w"] == "colon" and f["opt"] == "none" and f["blanks"] == 0 and f["skip"] == 0 and not f["first"] and n + 1 < len(path) \
-                and path[n + 1]["w"] in ("colon", "div"):
-            devs.add("DevColonNested")
     return devs
 
 
